@@ -167,25 +167,22 @@ def g_rules(p: Project, rep: Report):
 
     rep.rule("G-R2", "every option key read as args[<k>] anywhere in ofxget (including loops over constant tuples) and every argparse dest is a key of DEFAULTS (the bottom layer), so every lookup is total and every option has a default")
     keys: Dict[str, ast.AST] = {}
-    for qn, cls, fn in m.functions():
-        fdefs = local_defs(fn)
-        for n in own_nodes(fn):
+    for qn, cls, fn0_ in m.functions():
+        if "." in qn and cls is None:
+            continue  # nested helpers are seen inlined in their enclosing function
+        try:
+            fn = flat(p, OFXGET, fn0_, p.classinfo(OFXGET, cls) if cls is not None else None)
+        except Exception:
+            fn = fn0_
+        for n in ast.walk(fn):
             if isinstance(n, ast.Subscript) and isinstance(n.value, ast.Name) and n.value.id in ("args", "merged") and isinstance(n.ctx, ast.Load):
                 if isinstance(n.slice, ast.Constant) and isinstance(n.slice.value, str):
                     keys.setdefault(n.slice.value, n)
                 elif isinstance(n.slice, ast.Name):
-                    for d in fdefs.get(n.slice.id, []):
-                        it = d.value if d.kind == "for" else None
-                        if isinstance(it, (ast.Tuple, ast.List)):
-                            for e in it.elts:
-                                if isinstance(e, ast.Constant):
-                                    keys.setdefault(e.value, n)
-                    # comprehension variables
-                    for comp in ast.walk(fn):
-                        if isinstance(comp, ast.comprehension) and isinstance(comp.target, ast.Name) and comp.target.id == n.slice.id and isinstance(comp.iter, (ast.Tuple, ast.List)):
-                            for e in comp.iter.elts:
-                                if isinstance(e, ast.Constant):
-                                    keys.setdefault(e.value, n)
+                    for t, it in _enclosing_bindings(n, fn):
+                        if isinstance(t, ast.Name) and t.id == n.slice.id:
+                            for k in _const_iter(it, p) or []:
+                                keys.setdefault(k, n)
     allowed_extra = {"request"}  # set by the sub-command parsers via set_defaults
     for k, node in sorted(keys.items()):
         ok = k in defaults or k in allowed_extra
@@ -399,51 +396,67 @@ REQUEST_KIND = {
 }
 
 
-def _request_ctor_sites(fn):
-    """(tuple class name, call, list of account-option keys whose ids feed it)"""
+def _enclosing_bindings(site, fn):
+    """[(target, iter expr)] of the loops / comprehension generators around `site`, innermost first"""
+    out = []
+    par = parent(site)
+    while par is not None and par is not fn:
+        if isinstance(par, (ast.ListComp, ast.GeneratorExp, ast.SetComp, ast.DictComp)):
+            for g in reversed(par.generators):
+                out.append((g.target, g.iter))
+        if isinstance(par, ast.For):
+            out.append((par.target, par.iter))
+        par = parent(par)
+    return out
+
+
+def _const_iter(it, p: Project):
+    """the tuple of strings an iterable denotes (literal, module-level constant, sorted()/tuple() of one), or None"""
+    from .fold import fold
+
+    v = fold(it, {}, p, OFXGET)
+    if isinstance(v, (tuple, list)) and v and all(isinstance(x, str) for x in v):
+        return list(v)
+    return None
+
+
+def _request_ctor_sites(fn, p: Project):
+    """(tuple class name, call, list of account-option keys whose ids feed it, name of the loop variable that ranges
+    over those keys or None)"""
     out = []
     defs = local_defs(fn)
     for c in own_nodes(fn):
         if isinstance(c, ast.Call) and isinstance(c.func, ast.Name) and c.func.id in ("StmtRq", "CcStmtRq", "InvStmtRq", "StmtEndRq", "CcStmtEndRq"):
-            # the loop / comprehension that supplies acctid
             acct = next((k.value for k in c.keywords if k.arg == "acctid"), None)
             keys: List[str] = []
+            keyvar = None
             if isinstance(acct, ast.Name):
-                it = None
-                par = parent(c)
-                while par is not None and par is not fn:
-                    if isinstance(par, (ast.ListComp, ast.GeneratorExp)):
-                        for g in par.generators:
-                            if isinstance(g.target, ast.Name) and g.target.id == acct.id:
-                                it = g.iter
-                    if isinstance(par, ast.For) and isinstance(par.target, ast.Name) and par.target.id == acct.id:
-                        it = par.iter
-                    par = parent(par)
-                keys = _arg_keys(it, c, fn, defs)
-            out.append((c.func.id, c, keys))
+                binds = _enclosing_bindings(c, fn)
+                it = next((i for t, i in binds if isinstance(t, ast.Name) and t.id == acct.id), None)
+                keys, keyvar = _arg_keys(it, binds, defs, p)
+            out.append((c.func.id, c, keys, keyvar))
     return out
 
 
-def _arg_keys(it, site, fn, defs) -> List[str]:
+def _arg_keys(it, binds, defs, p: Project, depth=3):
     """option keys denoted by an iterable like args['creditcard'] / args[accttype] / acctids"""
-    if it is None:
-        return []
+    if it is None or depth <= 0:
+        return [], None
     if isinstance(it, ast.Name):
         for d in defs.get(it.id, []):
             if d.kind == "assign":
-                return _arg_keys(d.value, site, fn, defs)
-        return []
+                return _arg_keys(d.value, binds, defs, p, depth - 1)
+        return [], None
     if isinstance(it, ast.Subscript) and isinstance(it.value, ast.Name) and it.value.id == "args":
         if isinstance(it.slice, ast.Constant):
-            return [it.slice.value]
+            return [it.slice.value], None
         if isinstance(it.slice, ast.Name):
-            # enclosing for over a constant tuple
-            par = parent(site)
-            while par is not None and par is not fn:
-                if isinstance(par, ast.For) and isinstance(par.target, ast.Name) and par.target.id == it.slice.id and isinstance(par.iter, (ast.Tuple, ast.List)):
-                    return [e.value for e in par.iter.elts if isinstance(e, ast.Constant)]
-                par = parent(par)
-    return []
+            for t, i in binds:
+                if isinstance(t, ast.Name) and t.id == it.slice.id:
+                    ks = _const_iter(i, p)
+                    if ks is not None:
+                        return ks, t.id
+    return [], None
 
 
 def j_rules(p: Project, rep: Report):
@@ -454,22 +467,37 @@ def j_rules(p: Project, rep: Report):
         raise AnalysisError("ACCTTYPES not found in ofxtools.models")
     svc = p.resolve("ofxtools.models", "SVCSTATUSES")
     rep.rule("J-R1", "request_stmt / request_stmtend: each account option is iterated exactly once and feeds the request kind that belongs to it (bank types -> StmtRq/StmtEndRq with accttype = the option's own name upper-cased, a valid ACCTTYPE; creditcard -> CcStmt*; investment -> InvStmtRq); date keywords take the like-named key of convert_datetime's result (dtstart=dt['start'], dtend=dt['end'], dtasof=dt['asof']); include flags take the like-named option; every built request is passed on")
-    cd = _fn(p, "convert_datetime")
-    produced: Set[str] = set()
-    for r in own_nodes(cd):
-        if isinstance(r, ast.Return) and isinstance(r.value, ast.DictComp):
-            g = r.value.generators[0]
-            if isinstance(g.iter, (ast.Tuple, ast.List)) and text(r.value.key) == f"{g.target.id}[2:]":
-                produced = {e.value[2:] for e in g.iter.elts if isinstance(e, ast.Constant)}
-                ok = text(r.value.value) in (f"D(args[{g.target.id}] or None)",)
-                rep.check("J-R1", "convert_datetime:values-from-own-option", ok, "" if ok else f"dates are converted from {text(r.value.value)}", gloc(p, r))
+    from .fold import fold as _fold
+    from .source import UNK as _UNK
+
+    cd0 = _fn(p, "convert_datetime")
+    cd = flat(p, OFXGET, cd0)
+    cdx = Expander(cd)
+    produced: Dict[str, str] = {}  # result key -> the option it is converted from
+    own_ok = True
+    for lv in loop_views(cd):
+        opts = _const_iter(lv.iter, p)
+        tn = lv.target_names
+        if opts is None or len(tn) != 1:
+            continue
+        for it, _c, k, v in stores_keyed_by(lv):
+            for o in opts:
+                key = _fold(cdx.x(k), {tn[0]: o}, p, OFXGET)
+                if not isinstance(key, str):
+                    continue
+                produced[key] = o
+            vt = cdx.t(v)
+            if f"args[{tn[0]}]" not in vt:
+                own_ok = False
     if not produced:
         raise AnalysisError("J-R1: convert_datetime's result keys not recognised")
+    rep.check("J-R1", "convert_datetime:values-from-own-option", own_ok, "" if own_ok else "a date is converted from something other than its own option", gloc(p, cd0))
     for fname, idx, want_keys in (("request_stmt", 0, ["checking", "savings", "moneymrkt", "creditline", "creditcard", "investment"]), ("request_stmtend", 1, ["checking", "savings", "moneymrkt", "creditline", "creditcard"])):
-        fn = _fn(p, fname)
-        sites = _request_ctor_sites(fn)
+        fn0 = _fn(p, fname)
+        fn = flat(p, OFXGET, fn0)
+        sites = _request_ctor_sites(fn, p)
         seen: Dict[str, int] = {}
-        for cls, c, keys in sites:
+        for cls, c, keys, keyvar in sites:
             for k in keys:
                 seen[k] = seen.get(k, 0) + 1
                 want = REQUEST_KIND.get(k, (None, None))[idx]
@@ -478,23 +506,21 @@ def j_rules(p: Project, rep: Report):
             for name, v in kw.items():
                 t = text(v)
                 if name.startswith("dt"):
-                    ok = t == f"dt['{name[2:]}']" and name[2:] in produced
-                    rep.check("J-R1", f"{fname}:{cls}({name})", ok, f"{name} is given {t}; expected dt['{name[2:]}'] (a key convert_datetime produces: {sorted(produced)})" if not ok else "", gloc(p, c))
+                    fx = Expander(fn)
+                    vx = fx.x(v)
+                    src_key = vx.slice.value if isinstance(vx, ast.Subscript) and isinstance(vx.slice, ast.Constant) and fx.t(vx.value).startswith("convert_datetime(") else None
+                    if src_key is None:
+                        rep.note(f"J-R1 undecided: {fname}:{cls}({name}) is given {t}")
+                        continue
+                    ok = produced.get(src_key) == name
+                    rep.check("J-R1", f"{fname}:{cls}({name})", ok, f"{name} is given {t}, which convert_datetime makes from option {produced.get(src_key)!r}; expected the date converted from '{name}' (keys produced: {produced})" if not ok else "", gloc(p, c))
                 elif name.startswith("inc"):
                     ok = t == f"args['{name}']"
                     rep.check("J-R1", f"{fname}:{cls}({name})", ok, f"{name} is given {t}; expected args['{name}']" if not ok else "", gloc(p, c))
                 elif name == "accttype":
                     # <loopvar>.upper() over the same constant tuple
-                    ok = isinstance(v, ast.Call) and isinstance(v.func, ast.Attribute) and v.func.attr == "upper" and all(k.upper() in accttypes for k in keys) and bool(keys)
-                    if ok:
-                        # the name upper-cased is the loop variable that ranges over exactly these option names
-                        lv = text(v.func.value)
-                        par = parent(c)
-                        ok = False
-                        while par is not None and par is not fn:
-                            if isinstance(par, ast.For) and isinstance(par.target, ast.Name) and par.target.id == lv and isinstance(par.iter, (ast.Tuple, ast.List)) and [e.value for e in par.iter.elts if isinstance(e, ast.Constant)] == keys:
-                                ok = True
-                            par = parent(par)
+                    # <loopvar>.upper() where the loop variable is the one that ranges over exactly these option names
+                    ok = isinstance(v, ast.Call) and isinstance(v.func, ast.Attribute) and v.func.attr == "upper" and all(k.upper() in accttypes for k in keys) and bool(keys) and keyvar is not None and text(v.func.value) == keyvar
                     rep.check("J-R1", f"{fname}:{cls}(accttype)", ok, f"accttype is {t} for options {keys}: not the option's own name upper-cased / not a valid ACCTTYPE {list(accttypes)}" if not ok else "", gloc(p, c))
                 elif name == "acctid":
                     ok = isinstance(v, ast.Name) and bool(keys)
@@ -506,14 +532,41 @@ def j_rules(p: Project, rep: Report):
             missing = sorted(need - set(kw))
             rep.check("J-R1", f"{fname}:{cls}:all-fields-given", not missing, f"{cls} is built without {missing}: the option is ignored for this kind of account" if missing else "", gloc(p, c))
         for k in want_keys:
-            rep.check("J-R1", f"{fname}:{k}:iterated-once", seen.get(k, 0) == 1, f"accounts configured under '{k}' are requested {seen.get(k, 0)} times" if seen.get(k, 0) != 1 else "", gloc(p, fn))
+            rep.check("J-R1", f"{fname}:{k}:iterated-once", seen.get(k, 0) == 1, f"accounts configured under '{k}' are requested {seen.get(k, 0)} times" if seen.get(k, 0) != 1 else "", gloc(p, fn0))
         extra = sorted(set(seen) - set(want_keys))
         rep.check("J-R1", f"{fname}:no-other-options", not extra, f"unexpected account options {extra}" if extra else "", gloc(p, fn))
         # collected with append/extend, passed whole
-        lists = {text(c.func.value) for c in own_nodes(fn) if isinstance(c, ast.Call) and isinstance(c.func, ast.Attribute) and c.func.attr in ("append", "extend") and any(any(y is s[1] for y in ast.walk(c)) for s in sites)}
+        containers = []
+        unknown_flow = False
+        for _cls, c, _k, _kv in sites:
+            st = c
+            while st is not None and not isinstance(st, ast.stmt):
+                st = parent(st)
+            cont = None
+            if isinstance(st, ast.Expr) and isinstance(st.value, ast.Call) and isinstance(st.value.func, ast.Attribute) and st.value.func.attr in ("append", "extend"):
+                cont = text(st.value.func.value)
+            elif isinstance(st, ast.AugAssign) and isinstance(st.op, ast.Add):
+                cont = text(st.target)
+            elif isinstance(st, (ast.Assign, ast.AnnAssign)):
+                tgt = st.targets[0] if isinstance(st, ast.Assign) else st.target
+                if st.value is c and isinstance(tgt, ast.Name):
+                    # a temporary: where is it appended?
+                    uses = [x for x in own_nodes(fn) if isinstance(x, ast.Call) and isinstance(x.func, ast.Attribute) and x.func.attr in ("append", "extend") and any(isinstance(y, ast.Name) and y.id == tgt.id for a in x.args for y in ast.walk(a))]
+                    if len(uses) == 1:
+                        cont = text(uses[0].func.value)
+                elif isinstance(st.value, (ast.List, ast.ListComp)) and isinstance(tgt, ast.Name):
+                    cont = tgt.id
+            if cont is None:
+                unknown_flow = True
+            else:
+                containers.append(cont)
+        lists = set(containers)
         rs = [c for c in own_nodes(fn) if isinstance(c, ast.Call) and isinstance(c.func, ast.Attribute) and c.func.attr == "request_statements"]
-        ok = len(lists) == 1 and bool(rs) and all(any(isinstance(a, ast.Starred) and text(a.value) in lists for a in c.args) and c.args and text(c.args[0]) == "password" for c in rs)
-        rep.check("J-R1", f"{fname}:passes-all-built-requests", ok, "" if ok else "the requests built are not all passed to client.request_statements(password, *requests, ...)", gloc(p, fn))
+        if unknown_flow or not rs:
+            rep.note(f"J-R1 undecided: {fname}: cannot follow every built request to client.request_statements()")
+        else:
+            ok = len(lists) == 1 and all(any(isinstance(a, ast.Starred) and text(a.value) in lists for a in c.args) and c.args and text(c.args[0]) == "password" for c in rs)
+            rep.check("J-R1", f"{fname}:passes-all-built-requests", ok, "" if ok else "the requests built are not all passed to client.request_statements(password, *requests, ...)", gloc(p, fn0))
         # --all: discovered accounts merged before the lists are read
         fcfg = CFG(fn)
         merges = fcfg.nodes_calling(lambda c: text(c.func) == "_merge_acctinfo")
@@ -643,16 +696,42 @@ def j_rules(p: Project, rep: Report):
     else:
         rep.note("J-R2 undecided: extract_acctinfos returns " + "; ".join(text(v)[:80] for v in rets))
     # init_client: each OFXClient parameter from the like-named option
-    ic = _fn(p, "init_client")
+    ic0 = _fn(p, "init_client")
+    ic = flat(p, OFXGET, ic0)
+    idefs = local_defs(ic)
+
+    def option_keys(e, depth=6, seen=None):
+        """(constant keys K of every args['K'] the value may derive from, texts of the defining expressions)"""
+        seen = seen if seen is not None else set()
+        keys, texts = set(), {text(e)}
+        for x in ast.walk(e):
+            if isinstance(x, ast.Subscript) and text(x.value) == "args" and isinstance(x.slice, ast.Constant):
+                keys.add(x.slice.value)
+            if isinstance(x, ast.Name) and x.id in idefs and x.id not in seen and depth > 0:
+                seen.add(x.id)
+                for d in idefs[x.id]:
+                    if isinstance(d.value, ast.AST):
+                        k2, t2 = option_keys(d.value, depth - 1, seen)
+                        keys |= k2
+                        texts |= t2
+        return keys, texts
+
     alias = {"userid": "user", "prettyprint": "pretty", "close_elements": "unclosedelements"}
+    pnames = ["url"]
     for c in own_nodes(ic):
         if isinstance(c, ast.Call) and text(c.func) == "OFXClient":
-            ok0 = c.args and text(c.args[0]) == "args['url']"
-            rep.check("J-R1", "init_client:url", bool(ok0), "" if ok0 else "the client is not given args['url']", gloc(p, c))
-            for k in c.keywords:
-                want = alias.get(k.arg, k.arg)
-                t = text(k.value)
-                ok = t in (f"args['{want}']", f"args['{want}'] or None", f"not args['{want}']")
-                if k.arg == "close_elements":
-                    ok = t == "not args['unclosedelements']"
-                rep.check("J-R1", f"init_client:{k.arg}", ok, f"OFXClient({k.arg}=) is given {t}; expected the '{want}' option" if not ok else "", gloc(p, c))
+            given = [(pnames[i], a) for i, a in enumerate(c.args) if i < len(pnames)] + [(k.arg, k.value) for k in c.keywords if k.arg]
+            if not any(n_ == "url" for n_, _ in given):
+                rep.check("J-R1", "init_client:url", False, "the client is not given args['url']", gloc(p, c))
+            for name, v in given:
+                want = alias.get(name, name)
+                keys, texts = option_keys(v)
+                ok = keys == {want}
+                why = f"OFXClient({name}=) is given {text(v)}, which derives from options {sorted(keys)}; expected the '{want}' option"
+                if ok and name == "close_elements":
+                    negs = [t for t in texts if t.replace('"', "'").startswith("not ") and "unclosedelements" in t]
+                    if not negs:
+                        ok, why = False, "close_elements is not the negation of the 'unclosedelements' option"
+                if ok and name == "prettyprint" and any(t.startswith("not ") for t in texts):
+                    ok, why = False, "prettyprint is the negation of the 'pretty' option"
+                rep.check("J-R1", f"init_client:{name}", ok, why if not ok else "", gloc(p, c))
